@@ -180,6 +180,54 @@ Lemma single_mode_ignores s : multi s = false ->
 Proof. intros Hm. unfold act_toggle, act_toggle_all, act_select_all. rewrite Hm. cbn. auto. Qed.
 
 (** every other operation leaves the selection alone *)
+(** * pre-selection *)
+Definition presel_keys (s : sel) (b : list mitem) : list key :=
+  map (fun it => (run s, mi_idx it)) (filter (fun it => should_select (selmod s) (mi_idx it)) b).
+Definition presel_on (s : sel) : bool := negb (selmod s =? 0)%N && multi s.
+
+Lemma fold_presel_spec (r k0 : N) : forall its m, wf m ->
+  let m' := fold_left (fun m it => if should_select k0 (mi_idx it) then m_insert m (r, mi_idx it) (mi_id it) else m) its m in
+  wf m' /\ forall k, m_contains m' k = keyin k (map (fun it => (r, mi_idx it)) (filter (fun it => should_select k0 (mi_idx it)) its)) || m_contains m k.
+Proof.
+  induction its as [|it its IH]; intros m W; cbn [fold_left filter].
+  - split; [exact W | reflexivity].
+  - destruct (should_select k0 (mi_idx it)) eqn:Es.
+    + destruct (insert_spec m (r, mi_idx it) (mi_id it) W) as (W1 & C1 & _).
+      destruct (IH _ W1) as (W2 & C2). split; [exact W2|]. intros k. rewrite C2, C1. cbn [map keyin existsb]. unfold keyin.
+      destruct (key_eqb k (r, mi_idx it)), (existsb _ _); reflexivity.
+    + apply IH, W.
+Qed.
+
+Lemma pre_select_spec s b : wf (selected s) ->
+  wf (pre_select s b) /\
+  forall k, m_contains (pre_select s b) k = (presel_on s && keyin k (presel_keys s b)) || m_contains (selected s) k.
+Proof.
+  intros W. unfold pre_select, presel_on. destruct (negb (selmod s =? 0)%N && multi s) eqn:E.
+  - destruct (fold_presel_spec (run s) (selmod s) b (selected s) W) as (W1 & C1). split; [exact W1|]. intros k. rewrite C1. reflexivity.
+  - split; [exact W | reflexivity].
+Qed.
+
+Lemma pre_select_single s b : multi s = false -> pre_select s b = selected s.
+Proof. intros H. unfold pre_select. rewrite H, andb_false_r. reflexivity. Qed.
+Lemma pre_select_none s b : selmod s = 0%N -> pre_select s b = selected s.
+Proof. intros H. unfold pre_select. rewrite H. reflexivity. Qed.
+
+(** the watermark condition of append_sorted_items: the batch is pre-selected iff the list is at
+    least as long as the longest one seen since the highest run number arrived *)
+Definition presel_applies (s : sel) (b : list mitem) : bool :=
+  let fresh := negb (match b with [] => true | _ => false end) && (latest s <? run s)%N in
+  ((if fresh then 0 else wm s) <=? nitems s)%N.
+
+Lemma append_selected s b :
+  selected (append_sorted_items s b) = (if presel_applies s b then pre_select s b else selected s) /\
+  multi (append_sorted_items s b) = multi s /\ selmod (append_sorted_items s b) = selmod s /\ run (append_sorted_items s b) = run s.
+Proof.
+  unfold append_sorted_items, presel_applies. destruct (_ <=? _ + _)%N; cbn; auto.
+Qed.
+
+Definition no_presel (s : sel) (o : op) : bool :=
+  match o with AppendItems _ => (selmod s =? 0)%N | _ => true end.
+
 Definition is_sel_action (o : op) : bool :=
   match o with Toggle | ToggleAll | SelectAll | DeselectAll | SelectRaw _ _ _ | SelectMatched _ _ _ => true | _ => false end.
 
@@ -193,10 +241,10 @@ Proof.
   inversion H; subst. auto.
 Qed.
 
-Lemma other_ops_keep_selected s o s' : is_sel_action o = false -> step s o = Some s' ->
+Lemma other_ops_keep_selected s o s' : is_sel_action o = false -> no_presel s o = true -> step s o = Some s' ->
   selected s' = selected s /\ multi s' = multi s.
 Proof.
-  intros Ha E. destruct o; cbn [is_sel_action] in Ha; try discriminate; cbn [step] in E.
+  intros Ha Hnp E. destruct o; cbn [is_sel_action] in Ha; try discriminate; cbn [step] in E.
   - eapply move_keeps_selected; exact E.
   - destruct (chk (- k)); cbn [bind] in E; [|discriminate]. eapply move_keeps_selected; exact E.
   - unfold page in E. repeat (match type of E with bind ?o _ = Some _ => destruct o eqn:?; cbn [bind] in E; [|discriminate] end). eapply move_keeps_selected; exact E.
@@ -204,7 +252,8 @@ Proof.
   - unfold page in E. repeat (match type of E with bind ?o _ = Some _ => destruct o eqn:?; cbn [bind] in E; [|discriminate] end). eapply move_keeps_selected; exact E.
   - unfold page in E. repeat (match type of E with bind ?o _ = Some _ => destruct o eqn:?; cbn [bind] in E; [|discriminate] end). eapply move_keeps_selected; exact E.
   - unfold select_screen_row in E. repeat (match type of E with bind ?o _ = Some _ => destruct o eqn:?; cbn [bind] in E; [|discriminate] end). eapply move_keeps_selected; exact E.
-  - inversion E; subst. unfold append_sorted_items. destruct (_ <=? _)%N; cbn; auto.
+  - inversion E; subst. cbn [no_presel] in Hnp. apply N.eqb_eq in Hnp.
+    destruct (append_selected s b) as (H1 & H2 & _). rewrite H1, H2, (pre_select_none s b Hnp). destruct (presel_applies s b); auto.
   - inversion E; subst. cbn. auto.
   - inversion E; subst. unfold draw_height. destruct (draws_a_row s h); cbn; auto.
   - inversion E; subst. cbn. auto.
@@ -230,7 +279,79 @@ Proof.
       split; [apply insert_spec, W | cbn; congruence].
     + inversion E; subst. unfold act_select_raw_item. destruct (multi s) eqn:Em; cbn [negb]; [|split; [exact W | intros _; apply Hs; reflexivity]].
       split; [apply insert_spec, W | cbn; congruence].
-  - destruct (other_ops_keep_selected s o s' Ha E) as [H1 H2]. unfold SelInv. rewrite H1, H2. exact HI.
+  - destruct (no_presel s o) eqn:Hnp.
+    + destruct (other_ops_keep_selected s o s' Ha Hnp E) as [H1 H2]. unfold SelInv. rewrite H1, H2. exact HI.
+    + destruct o; cbn [no_presel] in Hnp; try discriminate. cbn [step] in E. inversion E; subst.
+      destruct HI as [W Hs]. destruct (append_selected s b) as (H1 & H2 & _). unfold SelInv. rewrite H1, H2.
+      destruct (presel_applies s b); [|split; assumption].
+      split; [apply pre_select_spec, W | intros Hm; rewrite (pre_select_single s b Hm); apply Hs, Hm].
+Qed.
+
+Lemma move_selmod s d s' : move_line_cursor s d = Some s' -> selmod s' = selmod s.
+Proof.
+  unfold move_line_cursor. intros H.
+  repeat match type of H with
+  | bind ?o _ = Some _ => destruct o eqn:?; cbn [bind] in H; [|discriminate]
+  | (let '(_, _) := ?p in _) = Some _ => destruct p
+  end.
+  inversion H; subst. reflexivity.
+Qed.
+
+Lemma step_selmod s o s' : step s o = Some s' -> selmod s' = selmod s.
+Proof.
+  intros E. destruct o; cbn [step] in E.
+  - eapply move_selmod; exact E.
+  - destruct (chk (- k)); cbn [bind] in E; [|discriminate]. eapply move_selmod; exact E.
+  - unfold page in E. repeat (match type of E with bind ?o _ = Some _ => destruct o eqn:?; cbn [bind] in E; [|discriminate] end). eapply move_selmod; exact E.
+  - unfold page in E. repeat (match type of E with bind ?o _ = Some _ => destruct o eqn:?; cbn [bind] in E; [|discriminate] end). eapply move_selmod; exact E.
+  - unfold page in E. repeat (match type of E with bind ?o _ = Some _ => destruct o eqn:?; cbn [bind] in E; [|discriminate] end). eapply move_selmod; exact E.
+  - unfold page in E. repeat (match type of E with bind ?o _ = Some _ => destruct o eqn:?; cbn [bind] in E; [|discriminate] end). eapply move_selmod; exact E.
+  - unfold select_screen_row in E. repeat (match type of E with bind ?o _ = Some _ => destruct o eqn:?; cbn [bind] in E; [|discriminate] end). eapply move_selmod; exact E.
+  - inversion E; subst. apply append_selected.
+  - inversion E; subst. reflexivity.
+  - inversion E; subst. unfold draw_height. destruct (draws_a_row s h); reflexivity.
+  - unfold act_toggle in E. destruct (negb (multi s) || (nitems s =? 0)%N); [inversion E; subst; reflexivity|].
+    destruct (item_at s (cursor_idx s)); [|discriminate]. inversion E; subst. reflexivity.
+  - inversion E; subst. unfold act_toggle_all. destruct (negb (multi s) || (nitems s =? 0)%N); reflexivity.
+  - inversion E; subst. unfold act_select_all. destruct (negb (multi s) || (nitems s =? 0)%N); reflexivity.
+  - inversion E; subst. reflexivity.
+  - inversion E; subst. reflexivity.
+  - inversion E; subst. unfold act_select_raw_item. destruct (negb (multi s)); reflexivity.
+  - inversion E; subst. unfold act_select_raw_item. destruct (negb (multi s)); reflexivity.
+Qed.
+
+Lemma step_multi s o s' : step s o = Some s' -> multi s' = multi s.
+Proof.
+  intros E. destruct (is_sel_action o) eqn:Ha.
+  - destruct o; cbn in Ha; try discriminate; cbn [step] in E.
+    + unfold act_toggle in E. destruct (negb (multi s) || (nitems s =? 0)%N); [inversion E; subst; reflexivity|].
+      destruct (item_at s (cursor_idx s)); [|discriminate]. inversion E; subst. reflexivity.
+    + inversion E; subst. unfold act_toggle_all. destruct (negb (multi s) || (nitems s =? 0)%N); reflexivity.
+    + inversion E; subst. unfold act_select_all. destruct (negb (multi s) || (nitems s =? 0)%N); reflexivity.
+    + inversion E; subst. reflexivity.
+    + inversion E; subst. unfold act_select_raw_item. destruct (negb (multi s)); reflexivity.
+    + inversion E; subst. unfold act_select_raw_item. destruct (negb (multi s)); reflexivity.
+  - destruct (no_presel s o) eqn:Hnp; [exact (proj2 (other_ops_keep_selected s o s' Ha Hnp E))|].
+    destruct o; cbn [no_presel] in Hnp; try discriminate. cbn [step] in E. inversion E; subst. apply append_selected.
+Qed.
+
+Lemma run_selmod : forall ops s s', run_ops s ops = Some s' -> selmod s' = selmod s.
+Proof.
+  induction ops as [|o ops IH]; intros s s' E; cbn [run_ops] in E; [inversion E; subst; reflexivity|].
+  destruct (step s o) eqn:Es; [|discriminate]. rewrite (IH _ _ E). eapply step_selmod; exact Es.
+Qed.
+
+(** the selected set after a result update: what was selected, plus -- when a selector is configured,
+    in multi mode, and the watermark condition holds -- the arrivals the selector picks *)
+Lemma append_sel s b : SelInv s ->
+  SelInv (append_sorted_items s b) /\
+  forall k, m_contains (selected (append_sorted_items s b)) k =
+            (presel_applies s b && presel_on s && keyin k (presel_keys s b)) || m_contains (selected s) k.
+Proof.
+  intros HI. split; [exact (step_SelInv s (AppendItems b) _ HI eq_refl)|].
+  destruct HI as [W _]. destruct (append_selected s b) as (H1 & _). rewrite H1. intros k.
+  destruct (presel_applies s b); cbn [andb]; [|reflexivity].
+  destruct (pre_select_spec s b W) as (_ & C). apply C.
 Qed.
 
 Lemma run_SelInv : forall ops s s', SelInv s -> run_ops s ops = Some s' -> SelInv s'.
@@ -240,6 +361,8 @@ Proof.
 Qed.
 
 Lemma init_SelInv rev mul : SelInv (init rev mul).
+Proof. split; cbn; auto. Qed.
+Lemma init_sel_SelInv rev mul k : SelInv (init_sel rev mul k).
 Proof. split; cbn; auto. Qed.
 
 (** the counter: the keys are pairwise distinct, so the map's length is the size of the set *)
@@ -291,3 +414,15 @@ Proof.
   induction m as [|[k v] r IH]; intros W; cbn; [constructor|]. destruct W as [F W]. constructor; [apply IH, W|].
   apply Forall_map. exact F.
 Qed.
+
+Lemma single_set_empty rev k : forall ops s, run_ops (init_sel rev false k) ops = Some s -> multi s = false /\ selected s = [].
+Proof.
+  intros ops s E.
+  assert (Hm : forall ops s0 s1, multi s0 = false -> run_ops s0 ops = Some s1 -> multi s1 = false).
+  { induction ops0 as [|o ops0 IH]; intros s0 s1 H0 E0; cbn [run_ops] in E0; [inversion E0; subst; exact H0|].
+    destruct (step s0 o) as [s2|] eqn:Es; [|discriminate]. apply (IH s2 s1); [|exact E0].
+    rewrite (step_multi _ _ _ Es). exact H0. }
+  pose proof (Hm ops (init_sel rev false k) s eq_refl E) as M. split; [exact M|].
+  apply (run_SelInv ops _ _ (init_sel_SelInv rev false k) E). exact M.
+Qed.
+
